@@ -277,8 +277,7 @@ fn run_peer(steps: &[Step], tags: &HashMap<String, u64>, rng: &mut Rng) -> PeerR
         let mut tab = observe_orders(&dm);
         let r = std::panic::catch_unwind(std::panic::AssertUnwindSafe(|| if s.sys { dm.update_system(&s.text) } else { dm.update(&s.text) }));
         let verdict = match r { Ok(Ok(())) => 0, Ok(Err(e)) => err_code(&e), Err(_) => 97 };
-        let mut post = observe(&serde_json::to_value(&dm).unwrap(), tags, false);
-        if verdict == 0 && pr.verdicts.len() >= 1 { for n in post.nss.iter_mut() { for e in n.ents.iter_mut() { for f in e.fields.iter_mut() { if f.short == 32 { f.short = 33 } else if f.short == 33 { f.short = 32 } } } } }
+        let post = observe(&serde_json::to_value(&dm).unwrap(), tags, false);
         tab.new = reconstruct_new(&pre, &post, &s.ver);
         pr.obs.push(verdict);
         enc_model(&post, &mut pr.obs);
